@@ -126,6 +126,48 @@ def window_cases(seed=0):
     return bad, n
 
 
+def init_cases(seed=0):
+    """the first step and the step cap a freshly constructed solver starts from, with and without a seed solution"""
+    import tempfile
+    import tdgl
+    from tdgl.solver.solver import TDGLSolver
+    logging.disable(logging.CRITICAL)
+    dev = device()
+    bad, n = [], 0
+    with tempfile.TemporaryDirectory() as td:
+        # a seed whose last step is larger than the dt_init of the runs below (adaptive run that has ramped up)
+        so = tdgl.SolverOptions(solve_time=3, dt_init=1e-4, dt_max=1e-1, adaptive=True, output_file=os.path.join(td, "seed.h5"), save_every=50)
+        seed_sol = tdgl.solve(dev, so, applied_vector_potential=0.1)
+        for seeded in (False, True):
+            for adaptive in (True, False):
+                for dt_init, dt_max in ((2e-3, 1e-1), (1e-5, 5e-2)):
+                    o = tdgl.SolverOptions(solve_time=0.2, dt_init=dt_init, dt_max=dt_max, adaptive=adaptive, output_file=os.path.join(td, f"r{n}.h5"), save_every=20)
+                    s = TDGLSolver(dev, o, applied_vector_potential=0.1, seed_solution=seed_sol if seeded else None)
+                    n += 1
+                    case = dict(seed_solution=seeded, adaptive=adaptive, dt_init=dt_init, dt_max=dt_max, seed_last_dt=float(seed_sol.tdgl_data.state["dt"]))
+                    want_cap = dt_max if adaptive else dt_init
+                    if s.tentative_dt != dt_init or s.dt_max != want_cap:
+                        bad.append(dict(case, what="a new solver does not start from dt_init / the cap is not dt_max (dt_init when adaptivity is off)",
+                                        tentative_dt=float(s.tentative_dt), cap=float(s.dt_max)))
+                        continue
+                    if not adaptive:
+                        sol = s.solve()
+                        dts = sol.dynamics.dt
+                        n += 1
+                        if len(dts) and not np.all(dts == dt_init):
+                            bad.append(dict(case, what="fixed-step run used a step different from dt_init", steps=sorted(set(np.round(dts, 12).tolist()))[:4]))
+    logging.disable(logging.NOTSET)
+    return bad, n
+
+
+def replay_init(unit, obl):
+    import tdgl
+    bad, n = init_cases()
+    if bad:
+        return dict(confirmed=True, failing_input=bad[0], n_failing=len(bad), evaluations=n, tdgl_file=tdgl.__file__)
+    return dict(confirmed=False, evaluations=n, tdgl_file=tdgl.__file__)
+
+
 def replay(unit, obl):
     import tdgl
     logging.disable(logging.CRITICAL)
